@@ -2,9 +2,10 @@ package main
 
 import (
 	"fmt"
-	"os"
 	"go/constant"
 	"go/token"
+	"go/types"
+	"os"
 	"strconv"
 	"strings"
 
@@ -488,4 +489,608 @@ func c15ParserInputs(r *Run, scope func(fn *ssa.Function) bool) int {
 		})
 	}
 	return n
+}
+
+// ---- C18.R5: neighbour checks that read the previous shard's interval back from the list --------------
+
+// c18NeighbourPairs decides the construction rule of NewTemporalLogClient for every form in which the contiguity
+// comparison reads a bound of an interval that is an ELEMENT OF THE LIST OF INTERVALS the function builds — inside
+// the loop that converts the shards (prev = intervals[i-1], cur = the shard just converted), or in a loop of its
+// own after all shards are converted (prev, cur = intervals[i-1], intervals[i]), with or without a helper.  Facts:
+//
+//	list            the list handed out as the result holds at position j the interval of shard j: it is filled
+//	                by exactly one statement, in the loop that calls shardInterval(Shard[i]) for every i from 0,
+//	                with that call's result, at position i, on every turn (result.intervals, every-shard-kept);
+//	pair            the instants compared are the lower bound of the interval of shard a and the upper bound of
+//	                the interval of shard b with b = a − 1 as linear forms over the loop counter (previous-shard);
+//	tests           a previous interval without upper bound, a missing lower bound, lower ≠ previous upper: once
+//	                one of them came out bad every return that may execute is an error (extends-unbounded,
+//	                no-lower-bound, not-contiguous), the comparison is (time.Time).Equal;
+//	every join      the loop around the tests counts in steps of one, the first shard it takes as the later one
+//	                is shard 1 (or 0) and the last one is shard len−1, decided on the linear form of the loop
+//	                condition (every-later-shard-compared); for the counter values that make the later shard 1,
+//	                2, 3 none of the three tests can be got round on the way to the next turn, to the statement
+//	                that keeps the shard or out of the loop (later-shards-from-1); no accepting return executes
+//	                unless the loop has run to its end (pairs-before-accept).
+//
+// Reports false (nothing recorded) when fn has no such comparison.
+func c18NeighbourPairs(r *Run, fn *ssa.Function, key string) bool {
+	calls := CallsTo(fn, "client.shardInterval")
+	if len(calls) != 1 {
+		return false
+	}
+	si, isCall := calls[0].(*ssa.Call)
+	if !isCall {
+		return false
+	}
+	hS := loopHeaderOf(si.Block())
+	idxS := indexOfElem(CallArgs(si)[0])
+	if hS == nil || idxS == nil {
+		return false
+	}
+	succ := successReturns(fn)
+	// the list of intervals: what the result's intervals are set to
+	var listV ssa.Value
+	var listSt *ssa.Store
+	for _, ret := range succ {
+		if a := baseAlloc(ret.(*ssa.Return).Results[0]); a != nil {
+			for _, st := range r.storesAt(fn, "&("+r.D.allocName(a)+".intervals)") {
+				listV, listSt = st.Val, st
+			}
+		}
+	}
+	if listV == nil {
+		return false
+	}
+	list := c18ListValues(listV)
+	// the comparisons of a lower with an upper bound
+	type pair struct {
+		site     *ssa.Call
+		lo, up   *c18Bound
+		iLo, iUp ssa.Value
+	}
+	var pairs []pair
+	all := map[string]bool{}
+	for k := range r.D.AtomsOf(fn) {
+		all[k] = true
+	}
+	fromList := false
+	for _, v := range r.atomSites(fn, all) {
+		c, ok := v.(*ssa.Call)
+		if !ok || c.Call.IsInvoke() || c.Call.StaticCallee() == nil || len(c.Call.Args) != 2 || r.D.Classify(v).Kind != "ord" {
+			continue
+		}
+		a, b := c18BoundOf(c.Call.Args[0]), c18BoundOf(c.Call.Args[1])
+		if a == nil || b == nil {
+			continue
+		}
+		if a.field == "upper" {
+			a, b = b, a
+		}
+		if a.field != "lower" || b.field != "upper" {
+			continue
+		}
+		p := pair{site: c, lo: a, up: b}
+		var srcA, srcB string
+		p.iLo, srcA = c18ShardOf(si, a.holder, list)
+		p.iUp, srcB = c18ShardOf(si, b.holder, list)
+		if srcA == "list" || srcB == "list" {
+			fromList = true
+		}
+		pairs = append(pairs, p)
+	}
+	if len(pairs) == 0 || !fromList {
+		return false
+	}
+	defer t6Debug(r, len(r.Obls))
+	r.Pass(key+":overall/next", r.FnPos(fn), fmt.Sprintf("each shard's interval is shardInterval(Shard[i]); the previous shard's interval is read back from the list of intervals under construction (%d comparison(s) of a lower with an upper bound)", len(pairs)))
+
+	// ---- every shard is converted, an invalid one rejects, the list holds shard j's interval at position j
+	r.ErrorsGate(fn, key+":invalid-shard", "client.shardInterval", 1)
+	r.FailEdge(fn, key, EdgeSpec{Name: "empty-config", Atom: ordAtomR("0", "len((*client/configpb.TemporalLogConfig).GetShard(*))"), Bad: "=", Want: wantErr(true)})
+	i := r.D.D(idxS)
+	shardLenGlob := "len(p0.Shard) || len((*client/configpb.TemporalLogConfig).GetShard(p0))"
+	r.ExpectArg(si, key+":interval-of-shard-i", 0, "p0.Shard["+i+"]* || (*client/configpb.TemporalLogConfig).GetShard(p0)["+i+"]*")
+	r.Check(key+":all-shards-from-0", glob("it@*", i) && nonNegCounter(idxS) && c18StartsAtZero(idxS) && len(r.bindAtom(fn, ordAtomR(i, shardLenGlob))) > 0, r.Where(si),
+		"the loop that converts the shards runs over index "+i+" from 0 to len(Shard)")
+	shardLen := func(makes []*ssa.MakeSlice) bool {
+		return len(makes) == 1 && anyGlob(shardLenGlob, r.D.D(makes[0].Len))
+	}
+	var keep []ssa.Instruction
+	{
+		fills, makes, built := sliceFills(listV)
+		good := built && len(fills) == 1
+		for _, f := range fills {
+			ix, src := c18ShardOf(si, f.Elem, list)
+			good = good && src == "call" && ix == idxS && loopHeaderOf(f.In.Block()) == hS
+			if f.Index == nil {
+				for _, m := range makes {
+					good = good && isConstInt(m.Len, 0)
+				}
+			} else {
+				good = good && r.D.D(f.Index) == i && shardLen(makes)
+			}
+			keep = append(keep, f.In)
+		}
+		r.Check(key+":result.intervals", good, r.Where(listSt), fmt.Sprintf("intervals ← %s: %d fills; position j holds the interval of shard j (one fill, with shardInterval(Shard[i])'s result, at position i of a list that starts empty or by index i into a list of len(Shard))", clipStr(r.D.D(listV), 80), len(fills)))
+	}
+	for _, ret := range succ {
+		a := baseAlloc(ret.(*ssa.Return).Results[0])
+		if a == nil {
+			r.Fail(key+":result", r.Where(ret), "undecided: the result is not built in a local allocation")
+			continue
+		}
+		for _, st := range r.storesAt(fn, "&("+r.D.allocName(a)+".Clients)") {
+			fills, makes, built := sliceFills(st.Val)
+			good := built && len(fills) == 1
+			for _, f := range fills {
+				el := r.D.D(f.Elem)
+				good = good && glob("client.New(p0.Shard[it@*].Uri, *)#0", el)
+				if f.Index != nil {
+					good = good && glob("client.New(p0.Shard["+r.D.D(f.Index)+"].Uri, *)#0", el) && shardLen(makes)
+				}
+			}
+			r.Check(key+":result.Clients", good, r.Where(st), fmt.Sprintf("Clients ← %s: %d fills with the client of shard i (at position i)", clipStr(r.D.D(st.Val), 80), len(fills)))
+		}
+		if len(r.storesAt(fn, "&("+r.D.allocName(a)+".Clients)")) == 0 {
+			r.Fail(key+":result.Clients", r.Where(ret), "the result's Clients are never set")
+		}
+	}
+	for _, c := range CallsTo(fn, "client.New") {
+		r.ExpectArg(c, key+":client-of-shard", 0, "p0.Shard[*it@*].Uri")
+	}
+	if len(keep) == 0 {
+		r.Fail(key+":result.intervals", r.FnPos(fn), "undecided: no statement puts a shard's interval into the result")
+		return true
+	}
+	if body := si.Block(); body != hS {
+		stop := wBlockSet(keep)
+		skips := !stop[body] && r.D.Walk(fn, Sigma{}, body, stop).Blocks[hS]
+		r.Valuations++
+		r.Check(key+":every-shard-kept", !skips, r.Where(keep[0]), "the next shard is reached only through the statement that keeps the current shard's interval")
+	}
+
+	// ---- the pairs
+	for _, p := range pairs {
+		where := r.Where(p.site)
+		lo, up := r.D.D(p.lo.ptr), r.D.D(p.up.ptr)
+		if p.iLo == nil || p.iUp == nil {
+			r.Fail(key+":previous-shard", where, fmt.Sprintf("undecided: the comparison of %s with %s — cannot tell which shards' intervals these are (an interval is that of shard i when it is shardInterval(Shard[i])'s result or element i of the list of intervals)", clipStr(lo, 80), clipStr(up, 80)))
+			continue
+		}
+		lLo, lUp := r.D.Lin(p.iLo, nil), r.D.Lin(p.iUp, nil)
+		diff := lUp.add(lLo, -1)
+		dc, isC := diff.isConst()
+		r.Check(key+":previous-shard", isC && dc == -1, where, fmt.Sprintf("the lower bound compared is that of shard [%s], the upper bound that of shard [%s]: contiguity wants the upper bound of the shard just before (difference −1, found %s)", lLo, lUp, diff))
+		for _, e := range []EdgeSpec{
+			{Name: "extends-unbounded", Atom: nilAtom(up), Bad: "nil"},
+			{Name: "no-lower-bound", Atom: nilAtom(lo), Bad: "nil"},
+			{Name: "not-contiguous", Atom: ordAtomR("*"+lo, "*"+up), Bad: "<,>"},
+		} {
+			e.Want, e.Unreach = wantErr(true), succ
+			r.FailEdge(fn, key, e)
+		}
+		f := p.site.Call.StaticCallee()
+		r.Check(key+":contiguity-compares-instants", FuncName(f) == "(time.Time).Equal", where, "contiguity test is "+clipStr(r.D.D(p.site), 160))
+		c18EveryJoin(r, fn, key, p.site, p.iLo, lo, up, hS, succ, keep, list)
+	}
+	return true
+}
+
+// c18Bound: an instant read through a bound of an interval.
+type c18Bound struct {
+	ptr    ssa.Value // the *time.Time
+	holder ssa.Value // the interval: its address or its value
+	field  string
+}
+
+func c18BoundOf(v ssa.Value) *c18Bound {
+	u, ok := v.(*ssa.UnOp)
+	if !ok || u.Op != token.MUL {
+		return nil
+	}
+	var b *c18Bound
+	switch x := u.X.(type) {
+	case *ssa.UnOp:
+		if fa, isFA := x.X.(*ssa.FieldAddr); isFA && x.Op == token.MUL && fieldOf(fa) != nil {
+			b = &c18Bound{ptr: x, holder: fa.X, field: fieldOf(fa).Name()}
+		}
+	case *ssa.Field:
+		if fv := fieldOfVal(x); fv != nil {
+			b = &c18Bound{ptr: x, holder: x.X, field: fv.Name()}
+		}
+	}
+	if b == nil {
+		return nil
+	}
+	t := b.holder.Type()
+	if pt, isP := t.Underlying().(*types.Pointer); isP {
+		t = pt.Elem()
+	}
+	if TypeName(t) != "client.interval" {
+		return nil
+	}
+	return b
+}
+
+// c18ListValues: the SSA values through which the list v is built (φ, reslicing, append chains, make).
+func c18ListValues(v ssa.Value) map[ssa.Value]bool {
+	out := map[ssa.Value]bool{}
+	var visit func(v ssa.Value)
+	visit = func(v ssa.Value) {
+		if out[v] {
+			return
+		}
+		switch x := v.(type) {
+		case *ssa.Phi:
+			out[v] = true
+			for _, e := range x.Edges {
+				visit(e)
+			}
+		case *ssa.Slice:
+			out[v] = true
+			visit(x.X)
+		case *ssa.MakeSlice:
+			out[v] = true
+		case *ssa.Call:
+			if b, isB := x.Call.Value.(*ssa.Builtin); isB && b.Name() == "append" && len(x.Call.Args) == 2 {
+				out[v] = true
+				visit(x.Call.Args[0])
+			}
+		}
+	}
+	visit(v)
+	return out
+}
+
+// c18WholeStore: the one value stored into a local interval that is otherwise only read (as a whole or by field).
+func c18WholeStore(a *ssa.Alloc) ssa.Value {
+	var val ssa.Value
+	n := 0
+	for _, ref := range *a.Referrers() {
+		switch x := ref.(type) {
+		case *ssa.DebugRef:
+		case *ssa.Store:
+			if x.Addr != ssa.Value(a) {
+				return nil
+			}
+			val = x.Val
+			n++
+		case *ssa.UnOp:
+			if x.Op != token.MUL {
+				return nil
+			}
+		case *ssa.FieldAddr:
+			for _, rr := range *x.Referrers() {
+				switch y := rr.(type) {
+				case *ssa.DebugRef:
+				case *ssa.UnOp:
+					if y.Op != token.MUL {
+						return nil
+					}
+				default:
+					return nil
+				}
+			}
+		default:
+			return nil
+		}
+	}
+	if n != 1 {
+		return nil
+	}
+	return val
+}
+
+// c18ShardOf: which shard's interval is this?  The index i when the interval is shardInterval(Shard[i])'s result
+// (src "call") or element i of the list of intervals (src "list"); nil when it is neither.
+func c18ShardOf(si *ssa.Call, holder ssa.Value, list map[ssa.Value]bool) (ssa.Value, string) {
+	v := holder
+	for depth := 0; depth < 8 && v != nil; depth++ {
+		switch x := v.(type) {
+		case *ssa.Alloc:
+			v = c18WholeStore(x)
+		case *ssa.UnOp:
+			if x.Op != token.MUL {
+				return nil, ""
+			}
+			v = x.X
+		case *ssa.IndexAddr:
+			if list[x.X] {
+				return x.Index, "list"
+			}
+			return nil, ""
+		case *ssa.Extract:
+			if x.Tuple == ssa.Value(si) && x.Index == 0 {
+				return indexOfElem(CallArgs(si)[0]), "call"
+			}
+			return nil, ""
+		default:
+			return nil, ""
+		}
+	}
+	return nil, ""
+}
+
+// c18Counter: the loop counter an index is a linear function of (index = counter + const): the counter's value,
+// the header of its loop and its first value.
+func c18Counter(v ssa.Value) (ctr ssa.Value, h *ssa.BasicBlock, init int64, ok bool) {
+	for depth := 0; depth < 6; depth++ {
+		switch x := v.(type) {
+		case *ssa.Phi:
+			if !isInduction(x) || isRangePre(x) {
+				return nil, nil, 0, false
+			}
+			n := 0
+			for _, e := range x.Edges {
+				if b, isB := e.(*ssa.BinOp); isB && b.X == ssa.Value(x) {
+					if b.Op != token.ADD || !isConstInt(b.Y, 1) {
+						return nil, nil, 0, false
+					}
+					continue
+				}
+				c, isC := e.(*ssa.Const)
+				if !isC || c.Value == nil || c.Value.Kind() != constant.Int {
+					return nil, nil, 0, false
+				}
+				init, _ = constant.Int64Val(c.Value)
+				n++
+			}
+			return x, x.Block(), init, n == 1
+		case *ssa.BinOp:
+			if ph, isP := x.X.(*ssa.Phi); isP && x.Op == token.ADD && isConstInt(x.Y, 1) && isRangePre(ph) {
+				return x, ph.Block(), 0, true
+			}
+			if _, isC := x.Y.(*ssa.Const); isC && (x.Op == token.ADD || x.Op == token.SUB) {
+				v = x.X
+				continue
+			}
+			if _, isC := x.X.(*ssa.Const); isC && x.Op == token.ADD {
+				v = x.Y
+				continue
+			}
+			return nil, nil, 0, false
+		case *ssa.Convert:
+			v = x.X
+		default:
+			return nil, nil, 0, false
+		}
+	}
+	return nil, nil, 0, false
+}
+
+func c18Reaches(from, to *ssa.BasicBlock) bool {
+	seen := map[*ssa.BasicBlock]bool{}
+	work := append([]*ssa.BasicBlock(nil), from.Succs...)
+	for len(work) > 0 {
+		b := work[len(work)-1]
+		work = work[:len(work)-1]
+		if seen[b] {
+			continue
+		}
+		seen[b] = true
+		if b == to {
+			return true
+		}
+		work = append(work, b.Succs...)
+	}
+	return false
+}
+
+// c18EveryJoin: the tests around the comparison `site` are applied to every join of two neighbouring shards
+// (see c18NeighbourPairs).  iLo is the index of the later shard of the pair.
+func c18EveryJoin(r *Run, fn *ssa.Function, key string, site *ssa.Call, iLo ssa.Value, lo, up string, hS *ssa.BasicBlock, succ, keep []ssa.Instruction, list map[ssa.Value]bool) {
+	where := r.Where(site)
+	ctr, hP, init, ok := c18Counter(iLo)
+	if !ok || hP == nil || !hP.Dominates(site.Block()) || !c18Reaches(site.Block(), hP) {
+		r.Fail(key+":every-later-shard-compared", where, "undecided: the index of the later shard of the pair, "+r.D.D(iLo)+", is not a loop counter (from a constant, in steps of one) plus a constant of a loop around the comparison")
+		return
+	}
+	lIdx := r.D.Lin(iLo, nil)
+	ctrLeaf := r.D.Lin(ctr, nil)
+	off := lIdx.add(ctrLeaf, -1)
+	c, isC := off.isConst()
+	if !isC {
+		r.Fail(key+":every-later-shard-compared", where, fmt.Sprintf("undecided: index of the later shard %s is not the loop counter %s plus a constant", lIdx, ctrLeaf))
+		return
+	}
+	if hP != hS {
+		// a loop of its own: it must read the finished list
+		inS := hS.Dominates(hP) && c18Reaches(hP, hS)
+		r.Check(key+":pairs-read-finished-list", hS.Dominates(hP) && !inS, r.Where(hP.Instrs[len(hP.Instrs)-1]), "the loop that compares neighbouring intervals runs after the loop that converts the shards (the list it reads is complete)")
+	}
+	// the loop condition: continue iff counter < len − d
+	ifi, isIf := hP.Instrs[len(hP.Instrs)-1].(*ssa.If)
+	if !isIf {
+		r.Fail(key+":every-later-shard-compared", where, "undecided: the header of the loop around the comparison does not end in a test")
+		return
+	}
+	cond, neg := ifi.Cond, false
+	for {
+		u, isNot := cond.(*ssa.UnOp)
+		if !isNot || u.Op != token.NOT {
+			break
+		}
+		cond, neg = u.X, !neg
+	}
+	contOnTrue := hP.Dominates(hP.Succs[0]) && c18Reaches(hP.Succs[0], hP) && hP.Succs[0] != hP
+	if hP.Succs[0] == hP {
+		contOnTrue = true
+	}
+	if neg {
+		contOnTrue = !contOnTrue
+	}
+	bo, isBin := cond.(*ssa.BinOp)
+	if !isBin {
+		r.Fail(key+":every-later-shard-compared", where, "undecided: the condition of the loop around the comparison, "+clipStr(r.D.D(ifi.Cond), 120)+", is not a comparison")
+		return
+	}
+	// continue iff L < R (strict) or L <= R
+	var L, R ssa.Value
+	strict := false
+	switch bo.Op {
+	case token.LSS:
+		L, R, strict = bo.X, bo.Y, true
+	case token.LEQ:
+		L, R, strict = bo.X, bo.Y, false
+	case token.GTR:
+		L, R, strict = bo.Y, bo.X, true
+	case token.GEQ:
+		L, R, strict = bo.Y, bo.X, false
+	default:
+		r.Fail(key+":every-later-shard-compared", where, "undecided: the condition of the loop around the comparison, "+clipStr(r.D.D(ifi.Cond), 120)+", is not an order comparison of the counter with a length")
+		return
+	}
+	if !contOnTrue { // ¬(L < R) = R <= L ; ¬(L <= R) = R < L
+		L, R, strict = R, L, !strict
+	}
+	d := r.D.Lin(L, nil).add(r.D.Lin(R, nil), -1) // continue iff d < 0 (strict) / d <= 0
+	if !strict {
+		d.Const--
+	}
+	// d must be  +counter − len(list | Shard) + k
+	lenLeaf, k, shapeOK := "", d.Const, true
+	for leaf, co := range d.Coef {
+		switch {
+		case co == 0:
+		case co == 1 && ctrLeaf.Coef[leaf] == 1:
+		case co == -1 && lenLeaf == "" && c18IsListLen(r, leaf, list):
+			lenLeaf = leaf
+		default:
+			shapeOK = false
+		}
+	}
+	if d.Coef[firstLeaf(ctrLeaf)] != 1 || lenLeaf == "" || !shapeOK {
+		r.Fail(key+":every-later-shard-compared", where, fmt.Sprintf("undecided: the loop around the comparison continues while %s < 0, which is not \"counter below the number of shards (± a constant)\"", d))
+		return
+	}
+	// counter runs init … len−k−1; later shard = counter + c
+	first := init + c
+	okFirst := first == 0 || first == 1
+	okLast := c == k
+	lastTxt := fmt.Sprintf("len%+d", c-k-1)
+	lenTxt := lenLeaf
+	if !anyGlob("len(p0.Shard) || len((*client/configpb.TemporalLogConfig).GetShard(p0))", lenLeaf) {
+		lenTxt = "len(list of intervals)"
+	}
+	bound := lenTxt
+	if k != 0 {
+		bound = fmt.Sprintf("%s%+d", lenTxt, -k)
+	}
+	later := "counter"
+	if c != 0 {
+		later = fmt.Sprintf("counter%+d", c)
+	}
+	verdict := "every shard from 1 to len−1, the last one included, is compared with the one before it"
+	switch {
+	case !okLast && c < k:
+		verdict = fmt.Sprintf("the shards from len%+d on — the LAST shard — are never compared with their predecessor: a gap, an overlap, an out-of-order shard or an unbounded predecessor at the last join is accepted (a two-shard list is not checked at all)", c-k)
+	case !okLast:
+		verdict = "the loop runs past the last shard"
+	case !okFirst:
+		verdict = fmt.Sprintf("the first join compared is that of shard %d: the joins of the shards before it (from shard 1 on) are never compared", first)
+	}
+	r.Check(key+":every-later-shard-compared", okFirst && okLast, r.Where(ifi),
+		fmt.Sprintf("the loop around the neighbour tests runs its counter from %d while counter < %s and takes shard [%s] as the later one of each pair, so the joins tested are those of shards %d … %s with the shard before: %s",
+			init, bound, later, first, lastTxt, verdict))
+	// no accepting return unless the loop has run to its end
+	body := hP.Succs[0]
+	for _, s := range hP.Succs {
+		if hP.Dominates(s) && c18Reaches(s, hP) {
+			body = s
+		}
+	}
+	early := ""
+	for _, ret := range succ {
+		if !hP.Dominates(ret.Block()) {
+			early = "the accepting return at " + r.Where(ret) + " can execute without the loop around the neighbour tests having been entered"
+		}
+	}
+	reach := r.D.Walk(fn, Sigma{}, body, map[*ssa.BasicBlock]bool{hP: true})
+	r.Valuations++
+	for _, ret := range succ {
+		if reach.Has(ret) {
+			early = "the accepting return at " + r.Where(ret) + " can be reached from inside the loop around the neighbour tests without its condition having ended it (later joins go untested)"
+		}
+	}
+	r.Check(key+":pairs-before-accept", early == "", r.Where(ifi), "every accepting return lies behind the loop that tests the joins and is reached only when its condition ends it "+early)
+
+	// for the later shards 1, 2, 3: none of the three tests can be got round
+	found := r.D.AtomsOf(fn)
+	tests := map[string][]string{}
+	for _, a := range []struct {
+		name string
+		at   RuleAtom
+	}{{"extends-unbounded", nilAtom(up)}, {"no-lower-bound", nilAtom(lo)}, {"not-contiguous", ordAtomR("*"+lo, "*"+up)}} {
+		tests[a.name] = r.bindAtom(fn, a.at)
+	}
+	bad := ""
+	ctrTerm := r.D.D(ctr)
+	for later := int64(1); later <= 3 && bad == ""; later++ {
+		s, _ := r.SgModel(fn, map[string]int64{ctrTerm: later - c})
+		for _, name := range []string{"extends-unbounded", "no-lower-bound", "not-contiguous"} {
+			ks := wKeySet(tests[name])
+			blocks := r.blocksTesting(fn, func(ci *CondInfo) bool { return ks[ci.Key] && found[ci.Key] != nil })
+			if len(blocks) == 0 {
+				continue // reported by the test's own obligation
+			}
+			stop := map[*ssa.BasicBlock]bool{}
+			for _, b := range blocks {
+				stop[b] = true
+			}
+			if stop[body] {
+				continue
+			}
+			reach := r.D.Walk(fn, s, body, stop)
+			r.Valuations++
+			switch {
+			case reach.Blocks[hP]:
+				bad = fmt.Sprintf("with shard %d as the later one (counter %s = %d) the next turn of the loop is reached without the test %s", later, ctrTerm, later-c, name)
+			case hP == hS && wAnyIn(reach.Blocks, wBlockSet(keep)) && !c18KeepBefore(keep, blocks):
+				bad = fmt.Sprintf("with shard %d as the later one (counter %s = %d) the shard's interval is kept without the test %s", later, ctrTerm, later-c, name)
+			default:
+				for _, ret := range succ {
+					if reach.Has(ret) {
+						bad = fmt.Sprintf("with shard %d as the later one (counter %s = %d) the accepting return is reached without the test %s", later, ctrTerm, later-c, name)
+					}
+				}
+			}
+		}
+	}
+	r.Check(key+":later-shards-from-1", bad == "", where, "for the later shards 1, 2, 3 (sample counter values; guards on the counter valuated exactly) a turn of the loop cannot end, keep the shard or leave the loop without passing the three neighbour tests "+bad)
+}
+
+// c18KeepBefore: the statement that keeps the shard dominates the tests (kept first, tested afterwards: an error
+// return discards the list).
+func c18KeepBefore(keep []ssa.Instruction, tests []*ssa.BasicBlock) bool {
+	for _, k := range keep {
+		for _, t := range tests {
+			if k.Block() != t && !k.Block().Dominates(t) {
+				return false
+			}
+		}
+	}
+	return true
+}
+
+func firstLeaf(l LinForm) string {
+	for k, c := range l.Coef {
+		if c != 0 {
+			return k
+		}
+	}
+	return ""
+}
+
+// c18IsListLen: a leaf of a linear form that is the number of shards: len(Shard) or the length of the list of intervals.
+func c18IsListLen(r *Run, leaf string, list map[ssa.Value]bool) bool {
+	if anyGlob("len(p0.Shard) || len((*client/configpb.TemporalLogConfig).GetShard(p0))", leaf) {
+		return true
+	}
+	for v := range list {
+		if leaf == "len("+r.D.D(v)+")" {
+			return true
+		}
+	}
+	return false
 }
